@@ -185,7 +185,7 @@ func (w *world) exec(ctx context.Context, r *rerunner, plan []item, inv int, dep
 				o, err := w.exec(ctx, r, r.sub[key], inv, depth+1)
 				if err == nil && r.childErrAt[inv] {
 					w.triggers++
-			w.c.Fault("cached-child-retry-error")
+					w.c.Fault("cached-child-retry-error")
 					return nil, reactive.RetrySentinelError
 				}
 				return o, err
@@ -569,7 +569,39 @@ func (w *world) checkFresh(c *runner.Ctx) {
 
 // checkCleanupLive: at quiescence resources the current computations depend
 // on must not have been cleaned; every other registered resource exactly once.
+//
+// A plan with InvalidateAfter keeps re-running for ever, and a release can sit
+// inside another rerunner's invalidation handler for that rerunner's minimum
+// interval, so at any instant an instance may be "cleaned but still named by
+// the last output" (its computation is already invalidated, the re-run is
+// pending) or "unused but not cleaned yet". Only an instance that is still in
+// that state 95 simulated seconds later - longer than every delay a pending
+// re-run or release can have - is reported.
 func (w *world) checkCleanupLive(c *runner.Ctx) {
+	first := w.cleanupOffenders()
+	if len(first) == 0 {
+		return
+	}
+	c.Probe("cleanup-state-rechecked")
+	simrt.Sleep(95 * time.Second)
+	second := w.cleanupOffenders()
+	for id, kind := range first {
+		if second[id] != kind {
+			continue
+		}
+		in := w.insts[id]
+		if kind == "in-use" {
+			c.ViolateFor("C08", "cleaned-while-in-use", "resource instance %d (slot %d) was cleaned up although a current computation depends on it (and still does 95 s later)", in.id, in.slot)
+		} else {
+			c.ViolateFor("C08", fmt.Sprintf("cleanup-count-at-quiescence/%d", min(in.cleaned, 2)), "resource instance %d (slot %d) is no longer used by any current computation but was cleaned up %d times (want 1)", in.id, in.slot, in.cleaned)
+		}
+	}
+}
+
+// cleanupOffenders lists the instances whose cleanup count does not fit their
+// use right now: "in-use" (held by a current computation, yet cleaned) or
+// "unused" (held by none, cleaned != once).
+func (w *world) cleanupOffenders() map[int]string {
 	// held: in the dependency set of a live rerunner's current computation.
 	// limbo: only held by the leftover computation of a rerunner that ended
 	// with a hard error and was not stopped yet. Such a computation may have
@@ -589,6 +621,7 @@ func (w *world) checkCleanupLive(c *runner.Ctx) {
 			}
 		}
 	}
+	out := map[int]string{}
 	for _, in := range w.insts {
 		if !in.registered {
 			continue
@@ -596,9 +629,10 @@ func (w *world) checkCleanupLive(c *runner.Ctx) {
 		switch {
 		case !held[in.id] && limbo[in.id]:
 		case held[in.id] && in.cleaned != 0:
-			c.ViolateFor("C08", "cleaned-while-in-use", "resource instance %d (slot %d) was cleaned up although a current computation depends on it", in.id, in.slot)
+			out[in.id] = "in-use"
 		case !held[in.id] && in.cleaned != 1:
-			c.ViolateFor("C08", fmt.Sprintf("cleanup-count-at-quiescence/%d", min(in.cleaned, 2)), "resource instance %d (slot %d) is no longer used by any current computation but was cleaned up %d times (want 1)", in.id, in.slot, in.cleaned)
+			out[in.id] = "unused"
 		}
 	}
+	return out
 }
